@@ -36,4 +36,12 @@ def obligations(tier):
                           tier="quick" if q else "thorough", family="reject-secretbox-" + SBNAME[v],
                           desc="secretbox open_easy/open_detached/NaCl open on arbitrary box: accept <=> tag delta == 0; output untouched on rejection; clen<16 rejected",
                           bounds="all key/nonce/box bytes; clen enumerated (quick 10 values, thorough 0..96)"))
+    from obligations import C09 as c09
+    ins = list(range(0, 58)) if tier == "thorough" else [0, 16, 17, 18, 34, 57]
+    for il in ins:
+        obs.append(Ob("reject-secretstream-in%d" % il, "C09/reject.c", units=c09.UNITS, stubs=GLUE_STUBS,
+                      defs={"INLEN": il, "ADLEN": 5}, unwind=270, timeout=600, family="reject-secretstream",
+                      tier="quick" if il in (0, 16, 17, 18, 34, 57) else "thorough",
+                      desc="secretstream pull on an arbitrary chunk: accept <=> all 16 stored MAC bytes equal the recomputed MAC; rejection leaves state and output untouched",
+                      bounds="arbitrary state/chunk/ad; inlen enumerated"))
     return obs
